@@ -75,6 +75,7 @@ class ReconWorld:
         self.port = 51826
         self.state_num = 1
         self._abandoned = set()
+        self.garble = []
         self.tasks = []
         self._instrument()
 
@@ -154,6 +155,12 @@ class ReconWorld:
 
         def on_request(c, req):
             o = getattr(c, "attempt_outcome", "ok")
+            if self.garble and c.secure and req.method == "PUT":
+                # legal-but-rare misbehaviour: the next reply on the session is not what the request calls for (body that is not JSON / not
+                # UTF-8); the library gives the session up by itself - and must then connect again
+                kind = self.garble.pop(0)
+                c.send_http(200, "OK", b"\xff\xfe{" if kind == "bytes" else b"{not json")
+                return True
             if o == "ok-resub-garbage" and req.method == "PUT" and b'"ev"' in req.body and not getattr(c, "resub_dropped", False):
                 # the re-subscription is answered with a multi-status body whose entries lack the status member
                 c.resub_dropped = True
@@ -290,6 +297,9 @@ class ReconWorld:
             tr.wakeups.append(t0)
             if not p._shutdown:
                 self.conn.reconnect_soon()
+        elif name == "garble":
+            self.garble.append(op[1] if len(op) > 1 else "text")
+            note = "armed"
         elif name == "stall":
             # the accessory stops reading: what the controller writes from now on stays in its transport's write buffer, and a close()
             # of that transport completes (connection_lost) only when the buffer is flushed or the socket fails - as asyncio's does
